@@ -24,6 +24,15 @@
 //! under unrelated keys, and by protected traffic arriving before any key is installed.
 //! Liveness (that authentic traffic *is* delivered) is not judged, only counted for the
 //! vacuity guards.
+//!
+//! Second part (PeerConnection level, engine E5, `vh::c14pc`): the transport-level histories
+//! cannot see how `PeerConnection` wires its transport in the SRTP-mandatory modes (which mode
+//! maps to `srtp_required`, when keys are installed relative to receivers / buffered early
+//! packets, what stays wired when key installation fails).  A finite lattice on real loopback
+//! covers that: mode {Srtp, WebRtc} x offerer {PC, peer} x remote-description variant x phase of
+//! injected cleartext x {cleartext RTP, cleartext RTCP} x {close(), drop}; see the module
+//! documentation for the oracle.  A failing signature is re-run alone three times and reported
+//! only if it shows every time (otherwise listed as flaky).
 use bytes::Bytes;
 use rayon::prelude::*;
 use rustrtc::peer_connection::RtpObserver;
@@ -44,6 +53,7 @@ use std::sync::atomic::{AtomicU64, Ordering};
 use std::task::{Context, Poll};
 use tokio::sync::{mpsc, watch};
 use vh::srtp_common::{profile_from_name, profile_name, ref_profile, salt_len};
+use vh::c14pc;
 
 // ------------------------------------------------------------------------------------------
 // Alphabet (simplest first)
@@ -904,6 +914,9 @@ fn replay(cli: &vh::Cli, path: &std::path::Path) -> ! {
     let txt = std::fs::read_to_string(path).unwrap_or_else(|e| vh::machinery_failure(&format!("cannot read {}: {e}", path.display())));
     let v: Value = serde_json::from_str(&txt).unwrap_or_else(|e| vh::machinery_failure(&format!("bad replay json: {e}")));
     let r = if v.get("replay").is_some() { v["replay"].clone() } else { v };
+    if r.get("part").and_then(|x| x.as_str()) == Some("pc-level") {
+        pc_replay(&r);
+    }
     let profile = r["profile"].as_str().and_then(profile_from_name).unwrap_or_else(|| vh::machinery_failure("replay: profile"));
     let srtp_required = r["srtp_required"].as_bool().unwrap_or(true);
     let ops: Vec<Op> = r["ops"]
@@ -941,11 +954,239 @@ fn replay(cli: &vh::Cli, path: &std::path::Path) -> ! {
     std::process::exit(1)
 }
 
+// ------------------------------------------------------------------------------------------
+// Second part: PeerConnection level (vh::c14pc)
+
+fn pc_replay(r: &Value) -> ! {
+    let p = c14pc::point_from_json(r).unwrap_or_else(|| vh::machinery_failure("replay: not a pc-level point"));
+    let mut violating = 0;
+    for round in 0..3 {
+        println!("pc-level replay round {round}: {}", c14pc::point_json(&p));
+        let o = c14pc::run_point(&p, round == 0);
+        if let Some(m) = &o.machinery {
+            println!("  machinery trouble: {m}");
+        }
+        println!("  outcome: {}", o.to_json(&p));
+        for f in &o.findings {
+            println!("  VIOLATES {} — {}", f.signature, f.detail);
+        }
+        if !o.findings.is_empty() {
+            violating += 1;
+        }
+    }
+    if violating == 0 {
+        println!("replay: no violation");
+        std::process::exit(0)
+    }
+    println!("replay: violation reproduced in {violating} of 3 runs");
+    std::process::exit(1)
+}
+
+fn pc_threads() -> usize {
+    std::env::var("C14_PC_THREADS").ok().and_then(|s| s.parse().ok()).unwrap_or(32)
+}
+
+/// Runs the lattice, confirms failing signatures alone, fills the report. Returns the number of
+/// confirmed violation signatures.
+fn pc_level(rep: &mut vh::Report, tier: vh::Tier) -> usize {
+    let t0 = std::time::Instant::now();
+    let mut runs = 0u64;
+
+    // negative control: plain-RTP mode must show cleartext delivered and cleartext leaving
+    let mut ctl = c14pc::negative_control();
+    runs += 1;
+    for _ in 0..2 {
+        let seen_deliver = ctl.findings.iter().any(|f| f.signature.contains("cleartext-delivered:track"));
+        let seen_emit = ctl.findings.iter().any(|f| f.signature.contains("cleartext-emitted:"));
+        if ctl.machinery.is_none() && seen_deliver && seen_emit {
+            break;
+        }
+        ctl = c14pc::negative_control();
+        runs += 1;
+    }
+    let ctl_deliver = ctl.findings.iter().filter(|f| f.signature.contains("cleartext-delivered:")).count();
+    let ctl_emit = ctl.findings.iter().filter(|f| f.signature.contains("cleartext-emitted:")).count();
+    if ctl.machinery.is_some() || ctl_deliver == 0 || ctl_emit == 0 {
+        vh::machinery_failure(&format!(
+            "pc-level negative control (plain RTP mode) not flagged: delivered classes {ctl_deliver}, emitted classes {ctl_emit}, machinery {:?}",
+            ctl.machinery
+        ));
+    }
+
+    let points = c14pc::lattice(tier == vh::Tier::Thorough);
+    let mut outs = c14pc::run_parallel(&points, pc_threads());
+    runs += points.len() as u64;
+
+    // harness trouble under load: retry those points a few at a time
+    let mut unresolved: Vec<(usize, String)> = vec![];
+    for attempt in 0..2 {
+        let idx: Vec<usize> = (0..points.len()).filter(|i| outs[*i].machinery.is_some()).collect();
+        if idx.is_empty() {
+            break;
+        }
+        let again: Vec<c14pc::Point> = idx.iter().map(|i| points[*i]).collect();
+        let res = c14pc::run_parallel(&again, 4);
+        runs += again.len() as u64;
+        for (k, i) in idx.iter().enumerate() {
+            if res[k].machinery.is_none() || attempt == 1 {
+                outs[*i] = res[k].clone();
+            }
+        }
+    }
+    for (i, o) in outs.iter().enumerate() {
+        if let Some(m) = &o.machinery {
+            unresolved.push((i, m.clone()));
+        }
+    }
+
+    // failing signatures: first point showing each; each such point is re-run alone three times
+    let mut first_of: BTreeMap<String, usize> = BTreeMap::new();
+    let mut hits: BTreeMap<String, u64> = BTreeMap::new();
+    for (i, o) in outs.iter().enumerate() {
+        for f in &o.findings {
+            first_of.entry(f.signature.clone()).or_insert(i);
+            *hits.entry(f.signature.clone()).or_default() += 1;
+        }
+    }
+    let mut confirm_points: Vec<usize> = first_of.values().copied().collect();
+    confirm_points.sort();
+    confirm_points.dedup();
+    let mut solo: BTreeMap<usize, Vec<c14pc::Outcome>> = BTreeMap::new();
+    for _round in 0..3 {
+        let pts: Vec<c14pc::Point> = confirm_points.iter().map(|i| points[*i]).collect();
+        let res = c14pc::run_parallel(&pts, 3);
+        runs += pts.len() as u64;
+        for (k, i) in confirm_points.iter().enumerate() {
+            solo.entry(*i).or_default().push(res[k].clone());
+        }
+    }
+    let mut confirmed = 0usize;
+    let mut flaky = vec![];
+    for (sig, i) in &first_of {
+        let runs3 = &solo[i];
+        let every = runs3.iter().all(|o| o.findings.iter().any(|f| &f.signature == sig));
+        if every {
+            confirmed += 1;
+            let detail = outs[*i].findings.iter().find(|f| &f.signature == sig).map(|f| f.detail.clone()).unwrap_or_default();
+            rep.violation(vh::Violation {
+                signature: sig.clone(),
+                detail: format!("[pc-level hits={} confirmed 3/3 alone] {detail}", hits[sig]),
+                replay: c14pc::point_json(&points[*i]),
+            });
+        } else {
+            let n = runs3.iter().filter(|o| o.findings.iter().any(|f| &f.signature == sig)).count();
+            flaky.push(json!({"signature": sig, "point": c14pc::point_json(&points[*i]), "reproduced_alone": format!("{n}/3")}));
+            println!("FLAKY (pc-level): {sig} reproduced {n}/3 alone at {}", c14pc::point_json(&points[*i]));
+        }
+    }
+
+    if std::env::var("C14_PC_DUMP").is_ok() {
+        for (p, o) in points.iter().zip(outs.iter()) {
+            println!("DUMP {}", o.to_json(p));
+        }
+    }
+    // tallies and vacuity guards
+    let mut classes: HashSet<String> = HashSet::new();
+    let mut by_terminal: BTreeMap<String, u64> = BTreeMap::new();
+    let mut tally: BTreeMap<&'static str, u64> = BTreeMap::new();
+    let mut per_mode: BTreeMap<&'static str, [u64; 5]> = BTreeMap::new();
+    for (p, o) in points.iter().zip(outs.iter()) {
+        if o.machinery.is_some() {
+            continue;
+        }
+        classes.insert(format!("{}|{}|{}", c14pc::mode_name(p.mode), c14pc::variant_name(p.variant), o.class()));
+        *by_terminal.entry(format!("{}:{}:{}", c14pc::mode_name(p.mode), c14pc::variant_name(p.variant), o.terminal)).or_default() += 1;
+        *tally.entry("cleartext_datagrams_injected").or_default() += o.clear_injected;
+        *tally.entry("media_datagrams_emitted_by_pc").or_default() += o.media_emitted;
+        *tally.entry("emitted_authenticated_srtp").or_default() += o.emitted_auth_rtp;
+        *tally.entry("emitted_authenticated_srtcp").or_default() += o.emitted_auth_rtcp;
+        *tally.entry("authentic_rtp_injected").or_default() += o.authentic_injected;
+        *tally.entry("authentic_rtp_delivered_to_track").or_default() += o.authentic_delivered_track;
+        *tally.entry("authentic_rtp_seen_by_observer").or_default() += o.authentic_seen_observer;
+        *tally.entry("points_with_keys").or_default() += o.keys as u64;
+        *tally.entry("points_without_keys").or_default() += !o.keys as u64;
+        *tally.entry("points_ended_in_closed_state").or_default() += o.ended_closed as u64;
+        *tally.entry("stun_requests_from_pc").or_default() += o.stun_requests;
+        *tally.entry("dtls_datagrams_from_pc").or_default() += o.dtls_in;
+        let m = per_mode.entry(c14pc::mode_name(p.mode)).or_default();
+        m[0] += o.keys as u64;
+        m[1] += (o.authentic_delivered_track > 0) as u64;
+        m[2] += (o.emitted_auth_rtp > 0) as u64;
+        m[3] += (o.emitted_auth_rtcp > 0) as u64;
+        m[4] += (o.terminal == "failed") as u64;
+    }
+    if confirmed == 0 {
+        if !unresolved.is_empty() {
+            let (i, m) = &unresolved[0];
+            vh::machinery_failure(&format!(
+                "pc-level: {} point(s) could not be run after 3 attempts; first {}: {m}",
+                unresolved.len(),
+                c14pc::point_json(&points[*i])
+            ));
+        }
+        for (mode, m) in &per_mode {
+            let names = ["points where keys exist", "points with authentic RTP delivered to the track", "points with authenticated SRTP emitted", "points with authenticated SRTCP emitted", "points that ended Failed"];
+            for (k, n) in m.iter().enumerate() {
+                if *n == 0 {
+                    vh::machinery_failure(&format!("pc-level vacuous in mode {mode}: zero {}", names[k]));
+                }
+            }
+        }
+        if classes.len() < 2 {
+            vh::machinery_failure("pc-level vacuous: fewer than 2 distinct outcome classes");
+        }
+    }
+    rep.set("pc_level_points", points.len() as u64);
+    rep.set("pc_level_runs", runs);
+    rep.set("pc_level_distinct_outcome_classes", classes.len() as u64);
+    rep.set("pc_level_wall_s", t0.elapsed().as_secs_f64());
+    rep.set("pc_level_exhaustive", true);
+    rep.set(
+        "pc_level_lattice",
+        json!({
+            "mode": ["Srtp", "WebRtc"],
+            "offerer": ["pc", "peer"],
+            "variant": {"Srtp": c14pc::variants_of(c14pc::Mode::Srtp).iter().map(|v| c14pc::variant_name(*v)).collect::<Vec<_>>(),
+                        "WebRtc": c14pc::variants_of(c14pc::Mode::WebRtc).iter().map(|v| c14pc::variant_name(*v)).collect::<Vec<_>>()},
+            "phase": ["before-remote-description", "after-remote-description", "after-failed-or-connected"],
+            "traffic": ["cleartext-rtp", "cleartext-rtcp"],
+            "end": ["close", "drop"],
+            "suite (Srtp, peer offers, well-formed only)": if tier == vh::Tier::Thorough { json!(["AES_CM_128_HMAC_SHA1_80", "AES_CM_128_HMAC_SHA1_32", "AEAD_AES_128_GCM"]) } else { json!(["AES_CM_128_HMAC_SHA1_80"]) },
+        }),
+    );
+    rep.set("pc_level_tally", json!(tally));
+    rep.set("pc_level_terminal_states", json!(by_terminal));
+    rep.set("pc_level_flaky", json!(flaky));
+    rep.set("pc_level_violation_signatures_confirmed", confirmed as u64);
+    rep.set("pc_level_unresolved_points", json!(unresolved.iter().map(|(i, m)| json!({"point": c14pc::point_json(&points[*i]), "why": m})).collect::<Vec<_>>()));
+    rep.set(
+        "pc_level_negative_control",
+        json!({"what": "same machinery against a TransportMode::Rtp PeerConnection", "delivered_classes": ctl_deliver, "emitted_classes": ctl_emit}),
+    );
+    // two real runs written out (one with keys, one without)
+    for want_keys in [true, false] {
+        if let Some((p, o)) = points.iter().zip(outs.iter()).find(|(_, o)| o.machinery.is_none() && o.keys == want_keys && o.terminal != "not-started") {
+            let mut j = o.to_json(p);
+            j["trace"] = json!(o.trace);
+            rep.sample(j);
+        }
+    }
+    confirmed
+}
+
 fn main() {
     let cli = vh::cli();
     vh::install_quiet_panic_hook();
     if let Some(p) = cli.replay.clone() {
         replay(&cli, &p);
+    }
+    if cli.rest.iter().any(|a| a == "--pc-level-only") {
+        // debugging aid: only the PeerConnection-level part, no evidence written
+        let mut scratch = vh::Report::new("C14", &cli, "model_checking");
+        let n = pc_level(&mut scratch, cli.tier);
+        println!("{}", serde_json::to_string_pretty(&json!(scratch.coverage)).unwrap_or_default());
+        println!("pc-level only: {n} confirmed violation signature(s); no evidence written");
+        std::process::exit(if n == 0 { 0 } else { 1 });
     }
     let mut rep = vh::Report::new("C14", &cli, "model_checking");
     let depth = cli.tier.pick(5usize, 6usize);
@@ -1001,6 +1242,9 @@ fn main() {
         acc.traces = salted;
         total = total.merge(acc);
     }
+
+    let pc_confirmed = pc_level(&mut rep, cli.tier);
+    let _ = pc_confirmed;
 
     let t = &total.tally;
     // Vacuity guards: the histories must have exercised every gate in both directions.
@@ -1081,5 +1325,8 @@ fn main() {
     rep.assume("Profiles: AES_CM_128_HMAC_SHA1_80 and AEAD_AES_128_GCM (quick), plus AES_CM_128_HMAC_SHA1_32 (thorough); one packet shape per operation (20-byte payload, no extensions; RR / BYE-with-reason / SR+SDES compound RTCP). Packet-shape variation is C04/C05's dimension.");
     rep.assume("Reference tolerance: webrtc-srtp's AES-CM cipher returns an SRTCP packet whose E bit is 0 without verifying its tag, so an emitted SRTCP datagram under an AES-CM profile counts as authenticated only if its E bit is 1 and the reference then verifies the tag (these profiles always encrypt). Replay protection of the reference is off (the property does not speak about replays).");
     rep.assume("Protected inbound datagrams are produced by webrtc-srtp under A's receive keys; 'wrong key' datagrams by webrtc-srtp under unrelated keys. Delivery of authentic traffic is counted but not judged (safety only).");
+    rep.assume("PC-level part: one real PeerConnection per point against a bare UDP socket on 127.0.0.1 (real time, own runtime, OS-assigned ports). The peer's descriptions are hand-written (one m=audio section, the codec of the PC's offer or PCMU, a=ssrc announced); ICE checks are answered (and, when the PC is controlled, a nominating check is sent) by a harness STUN responder; the peer's DTLS side is rustrtc's own DtlsTransport spliced onto the UDP socket, and its exporter output (RFC 5764 split) is taken as the negotiated DTLS-SRTP keys; in SDES mode the keys are the two exchanged a=crypto inline keys. Emitted datagrams are verified with webrtc-srtp under those keys.");
+    rep.assume("PC-level phases: cleartext is injected (3 datagrams from the negotiated remote address) before set_remote_description, right after it returns (in WebRTC mode additionally after ICE nomination while the peer withholds DTLS), or after the PeerConnection reports Connected/Failed (for 'dtls-never-completes' 250 ms after nomination; for 'no-fingerprint' after set_remote_description was refused). Sinks watched: receiver track samples, RtpObserver (registered as soon as the transport exists), a configured receiver interceptor (RTP and RTCP callbacks), the sender's RTCP subscription (the cleartext compound carries a PLI for the sender's SSRC); SR and BYE have no other public sink. Outbound stimuli: an application sample every 10 ms for the whole run, send_raw_rtp once after the terminal state, the close-time BYE. Settle time after the last stimulus and after close()/drop is 150 ms; later effects are not seen.");
+    rep.assume("PC-level: an SDES answerer binds its socket only while building its answer, so to have an address for the 'before remote description' phase the harness calls the public pc.ice_transport().start_gathering() first. Dropping the last handle of a Connected PeerConnection does not close it (C17 root cause R1), so 'drop' points in Connected state exercise no close path (see pc_level_tally.points_ended_in_closed_state). A failing signature is re-run alone 3 times and reported only if it shows every time; otherwise it is listed in pc_level_flaky.");
     std::process::exit(rep.finish());
 }
